@@ -52,7 +52,29 @@ def reference_cfg() -> CFG:
     return CFG.from_bnf(p.read_text())
 
 
-def rule_grammar_agrees(ctx: Ctx, rid="C06.GRAMMAR-AGREES", maxlen=None):
+def rule_accept_needs_end(ctx: Ctx, rid="C06.ACCEPT-NEEDS-END"):
+    """sly only skips the look-ahead in states whose single action is a REDUCE (negative entry):
+    the accept action (0) must stay subject to the `$end` look-ahead, otherwise text after the
+    definition is never even lexed."""
+    m = ctx.mod("sly/yacc.py")
+    init = m.get_method("LRTable", "__init__")
+    found = None
+    for n in ast.walk(init):
+        if isinstance(n, ast.If) and "len(rules) == 1" in norm(n.test):
+            found = n
+    if found is None:
+        raise AnalysisError("sly/yacc.py:LRTable.__init__: defaulted-state computation not found")
+    t = found.test
+    cmp = [x for x in ast.walk(t) if isinstance(x, ast.Compare) and norm(x.left) == "rules[0]"]
+    ok = len(cmp) == 1 and len(cmp[0].ops) == 1 and isinstance(cmp[0].ops[0], ast.Lt) and norm(cmp[0].comparators[0]) == "0"
+    ctx.rep.check(ok, rid, "sly/yacc.py:LRTable.__init__[defaulted_states]",
+                  "only single-reduce states are defaulted: accepting needs the $end look-ahead" if ok else
+                  f"defaulted states are selected by `{norm(t)}`: the accept action (0) is defaulted too, so the parser accepts "
+                  "without looking at what follows the definition (trailing junk or a second definition is never read)",
+                  witness="def e{ return \"A\" weighted 1 } junk", site=m.site(found), text=norm(t))
+
+
+def rule_grammar_agrees(ctx: Ctx, rid="C06.GRAMMAR-AGREES", maxlen=None, directions=("ref<=ext", "ext<=ref", "mutations")):
     """Two-way bounded language comparison (token-type sentences, smallest first): every
     sentence of the reference grammar up to N tokens is accepted by the LALR table built from the
     extracted productions, and every sentence of the extracted grammar up to N tokens is a
@@ -64,31 +86,38 @@ def rule_grammar_agrees(ctx: Ctx, rid="C06.GRAMMAR-AGREES", maxlen=None):
     limit = 4000 if ctx.rep.tier == "quick" else 60000
     n1 = n2 = 0
     miss = None
-    for s in ref.sentences(N, limit):
+    for s in (ref.sentences(N, limit) if "ref<=ext" in directions else ()):
         n1 += 1
         if not T.accepts(s):
             miss = s
             break
     con = f"{GR}:{g.cls.name}"
-    if miss:
+    if "ref<=ext" not in directions:
+        pass
+    elif miss:
         ctx.rep.bad(rid, con + "[reference <= extracted]", "a sentence of the documented grammar is rejected by the parser's table: "
                     + " ".join(miss), witness=" ".join(miss), text="rejects " + " ".join(miss))
     else:
         ctx.rep.ok(rid, con + "[reference <= extracted]", f"all {n1} reference sentences of <= {N} tokens are accepted")
     extra = None
-    for s in ext.sentences(N, limit):
+    for s in (ext.sentences(N, limit) if "ext<=ref" in directions else ()):
         n2 += 1
         if not earley_recognise(ref, s):
             extra = s
             break
-    if extra:
+    if "ext<=ref" not in directions:
+        pass
+    elif extra:
         ctx.rep.bad(rid, con + "[extracted <= reference]", "the parser's grammar derives a token sequence outside the documented grammar: "
                     + " ".join(extra), witness=" ".join(extra), text="accepts " + " ".join(extra))
     else:
         ctx.rep.ok(rid, con + "[extracted <= reference]", f"all {n2} sentences of the extracted grammar of <= {N} tokens are reference sentences")
     # and the table accepts nothing the extracted CFG does not derive (conflict resolution can only remove sentences)
     ctx.rep.extra["grammar_sentences_compared"] = {"reference": n1, "extracted": n2, "max_tokens": N}
-    ctx.rep.floor("reference sentences compared", n1, 60)
+    if "ref<=ext" in directions:
+        ctx.rep.floor("reference sentences compared", n1, 60)
+    if "mutations" not in directions:
+        return
     # one-token mutations of reference sentences that the reference rejects must be rejected by the table too
     n3 = 0
     bad = None
